@@ -24,6 +24,10 @@ InExtras  == {"sequence", "partial_sig", "tap_key_sig", "tap_script_sig", "final
               "final_script_witness", "redeem_script", "witness_script", "bip32_derivation",
               "tap_key_origin", "witness_utxo", "sighash_type", "issuance_value_proof"}
 OutExtras == {"bip32_derivation", "value_proof", "asset_proof", "tap_internal_key", "redeem_script"}
+\* explicit values stored next to their commitments (with the proofs that tie them together): the first input carries a blinded
+\* issuance, and one further output (position NOut + 1) carries amount and asset commitments; the transaction shows the commitments
+ExplIn  == {"issuance_value_explicit", "issuance_keys_explicit"}
+ExplOut == {"amount_explicit", "asset_explicit"}
 
 ---------------------------------------------------------------------------
 (* BIP370, declaratively *)
@@ -68,12 +72,15 @@ Actions ==
   [op : {"req_time"}, pos : 1..NIn, f : TVals] \cup
   [op : {"req_height"}, pos : 1..NIn, f : HVals] \cup
   [op : {"fallback"}, pos : {0}, f : Fallbacks] \cup
-  [op : {"amount"}, pos : 1..NOut, f : {"a2"}]
-IsExtra(a) == a.op \in {"in_field", "out_field"}
+  [op : {"amount"}, pos : 1..NOut, f : {"a2"}] \cup
+  [op : {"in_field"}, pos : {1}, f : ExplIn] \cup
+  [op : {"commit_out_field"}, pos : {NOut + 1}, f : ExplOut]
+IsExtra(a) == a.op \in {"in_field", "out_field", "commit_out_field"}
 
 Apply(p, a) ==
   CASE a.op = "in_field"   -> [p EXCEPT !.ins[a.pos].extras = @ \cup {a.f}]
     [] a.op = "out_field"  -> [p EXCEPT !.outs[a.pos].extras = @ \cup {a.f}]
+    [] a.op = "commit_out_field" -> [p EXCEPT !.cx = @ \cup {a.f}]
     [] a.op = "req_time"   -> [p EXCEPT !.ins[a.pos].rt = a.f]
     [] a.op = "req_height" -> [p EXCEPT !.ins[a.pos].rh = a.f]
     [] a.op = "fallback"   -> [p EXCEPT !.fb = a.f]
@@ -84,7 +91,7 @@ IdData(p) == [nin |-> Len(p.ins), amounts |-> [j \in DOMAIN p.outs |-> p.outs[j]
 
 P0 == [ins |-> [i \in 1..NIn |-> [rt |-> None, rh |-> None, extras |-> {}]],
        outs |-> [j \in 1..NOut |-> [amt |-> "a1", extras |-> {}]],
-       fb |-> "absent"]
+       cx |-> {}, fb |-> "absent"]
 
 VARIABLES pset, steps
 vars == <<pset, steps>>
